@@ -92,7 +92,10 @@ def running_average(ctx):
         out = res[1]
         want = ra_spec([Fraction(int(x)) if arr.dtype.kind == 'i' else fr(x) for x in snap], w)
         ctx.oracle('C17.f running average preserves length and time step', len(out) == len(snap) and sig.dt == 0.5, inputs)
-        if len(out) == len(snap):
+        if not np.all(np.isfinite(np.asarray(out, dtype=float))):
+            ctx.oracle('C17.f running average: out[i] == mean of the ORIGINAL samples within floor(w/2) positions of i', False, inputs,
+                       detail={'non-finite output': np.asarray(out, dtype=float)[:8]})
+        elif len(out) == len(snap):
             sc = max((abs(x) for x in want), default=Fraction(0))
             tol = Fraction(0) if exact else Fraction(1, 10**12) * sc
             bad = [i for i in range(len(want)) if abs(fr(float(out[i])) - want[i]) > tol]
@@ -246,7 +249,7 @@ def butter_real(ctx):
     ctx.count_case(('F17-1',), True, sample={'fn': 'Signal.butter_pass', 'cut_off': 'np.array([0.5, 10.0])', 'witness_of': 'F17-1'})
     ctx.oracle('C17.a cut-offs may be given as list, tuple or array: an ndarray is accepted', res[0] == 'ok',
                {'values': 'sin(2*pi*2*t), n=4000', 'dt': 0.01, 'cut_off': [0.5, 10.0], 'container': 'ndarray'}, detail=res)
-    n_cases = 70 if ctx.tier == 'quick' else 900
+    n_cases = 200 if ctx.tier == 'quick' else 1500
     for i in range(n_cases):
         dt = rng.choice([0.01, 0.005, 0.02])
         ftype, cut, probes, flow = filt_setup(rng, dt)
@@ -312,7 +315,7 @@ def detrend(ctx):
     import eqsig
     from eqsig.fns import generic
     rng = ctx.rng
-    n_cases = 120 if ctx.tier == 'quick' else 1500
+    n_cases = 300 if ctx.tier == 'quick' else 3000
     for i in range(n_cases):
         k = i % 5
         n = gen.log_int(rng, 5, 500 if ctx.tier == 'quick' else 3000)
@@ -343,7 +346,7 @@ def detrend(ctx):
                    inputs)
         cofs = np.polyfit(x, v, k)
         ctx.corr('remove_poly (given the impl\'s polyfit coefficients)', f"c17.remove_poly_with|{w_rats(cofs)}|{w_rats(v)}", r_fn,
-                 lambda outs, val: cmp_seq(ctx, 'remove_poly', list(val), p_rats(outs[0]), False, Fraction(1, 10**9)), inputs=inputs)
+                 lambda outs, val, scale=scale: cmp_budget(list(val), p_rats(outs[0]), Fraction(1, 10**9), scale=scale)[0], inputs=inputs)
         corr = v - r
         fitc = np.polyfit(x, corr, k)
         res_c = float(np.max(np.abs(corr - np.polyval(fitc, x)))) / scale
@@ -373,7 +376,7 @@ def detrend(ctx):
 def add_ops(ctx):
     import eqsig
     rng = ctx.rng
-    n_cases = 60 if ctx.tier == 'quick' else 600
+    n_cases = 100 if ctx.tier == 'quick' else 800
     for i in range(n_cases):
         exact = i % 3 != 2
         n = gen.log_int(rng, 1, 64 if exact else 400)
@@ -419,7 +422,7 @@ def add_ops(ctx):
                     ctx.oracle('C17.e add_series rejects a series of different length (SignalProcessingError), record unchanged',
                                res == ('err', 'SignalProcessingError') and np.array_equal(sig.values, v), inputs, detail=res)
             # add_signal
-            for dt2 in (dt, dt / 2):
+            for dt2 in (dt, dt / 2, dt * 2):
                 for kind in ('signal', 'acc', 'array', 'list', 'none'):
                     if m == 0 and kind in ('signal', 'acc'):
                         continue
